@@ -65,9 +65,10 @@ def decodeHexStr (h : String) : Option String := (ofHex h).bind utf8Decode
 
 /-- `lexlines` -/
 def cmdLexlines (args : List String) : String := Id.run do
-  let mut pending := ""
+  let mut pending : Option String := none
   let mut out := ""
   let mut lno := 1
+  let mut endLoc : Loc := Loc.nil
   for a in args do
     match decodeHexStr a with
     | none => return "bad-request"
@@ -77,8 +78,10 @@ def cmdLexlines (args : List String) : String := Id.run do
       | .ok lo =>
         out := out ++ "ok" ++ String.join (lo.toks.map fun t => " " ++ fmtTok t) ++ s!" end={lo.endCol} | "
         pending := lo.pending
+        endLoc := ⟨lno, lo.endCol⟩
         lno := lno + 1
-  return out
+  -- the literal still pending after the last line (`Lexer::finish`)
+  return out ++ "fin" ++ (match Lex.finish pending endLoc with | some t => " " ++ fmtTok t | none => "")
 
 /-- Rust `str::lines`: split on \n, strip a trailing \r of each line, no final empty line -/
 def strLines (s : String) : List String :=
@@ -88,7 +91,7 @@ def strLines (s : String) : List String :=
 
 def cmdParse (args : List String) : String := Id.run do
   let some src := args.head?.bind decodeHexStr | return "bad-request"
-  let mut pending := ""
+  let mut pending : Option String := none
   let mut cfg := LR.Cfg.init
   let mut trees : List String := []
   let mut ntok := 0
@@ -109,6 +112,13 @@ def cmdParse (args : List String) : String := Id.run do
       pending := lo.pending
       endLoc := ⟨lno, lo.endCol⟩
       lno := lno + 1
+  match Lex.finish pending endLoc with
+  | some t =>
+    match LR.feed cfg t with
+    | .ok c => cfg := c; ntok := ntok + 1
+    | .parseError => return s!"parseerr {ntok} {t.loc.line} {t.loc.col} {" ".intercalate trees}"
+    | .panic => return "panic parser"
+  | none => pure ()
   match LR.feed cfg LR.eofTok with
   | .parseError => return s!"parseerr {ntok} {endLoc.line} {endLoc.col} {" ".intercalate trees}"
   | .panic => return "panic parser"
@@ -428,9 +438,10 @@ def cmdOracle (args : List String) : String :=
   | "lex" :: lines =>
     -- Spec.lexLine over the given lines, threading the pending string (format of `lexlines` without end=)
     Id.run do
-      let mut pending := ""
+      let mut pending : Option String := none
       let mut out := ""
       let mut lno := 1
+      let mut endLoc : Loc := Loc.nil
       for a in lines do
         match decodeHexStr a with
         | none => return "bad-request"
@@ -440,8 +451,10 @@ def cmdOracle (args : List String) : String :=
           | .ok (toks, p) =>
             out := out ++ "ok" ++ String.join (toks.map fun t => " " ++ fmtTok t) ++ " | "
             pending := p
+            -- a line that lexes is consumed to its end: the lexer stops one past its last byte
+            endLoc := ⟨lno, ln.utf8ByteSize + 1⟩
             lno := lno + 1
-      return out
+      return out ++ "fin" ++ String.join ((Spec.lexFinish pending endLoc).map fun t => " " ++ fmtTok t)
   | "parse" :: toks =>
     -- tokens as kind:line:col:texthex (what the real lexer produced); Spec.parse decides
     let ts := toks.mapM fun t => match t.splitOn ":" with
